@@ -431,6 +431,52 @@ let run_linkage (x : sexp) : string =
       (match Linkage.callconv_of p e m fw o with Linkage.CC_C -> "ccc" | Linkage.CC_Fast -> "fastcc")
   | _ -> failwith "linkage"
 
+(* ---- C14: lexers ----------------------------------------------------------------- *)
+let tkind_name (k : Tok.tkind) : string = Tok.(match k with
+  | KParenLeft -> "ParenLeft" | KParenRight -> "ParenRight" | KBraceLeft -> "BraceLeft" | KBraceRight -> "BraceRight"
+  | KBracketLeft -> "BracketLeft" | KBracketRight -> "BracketRight" | KAngleLeft -> "AngleLeft" | KAngleRight -> "AngleRight"
+  | KPipe -> "Pipe" | KAmpersand -> "Ampersand" | KCaret -> "Caret" | KExclamation -> "Exclamation" | KPlaceholder -> "Placeholder"
+  | KPlus -> "Plus" | KMinus -> "Minus" | KTimes -> "Times" | KDivide -> "Divide" | KModulo -> "Modulo" | KColon -> "Colon"
+  | KSemicolon -> "Semicolon" | KDot -> "Dot" | KComma -> "Comma" | KAssignment -> "Assignment"
+  | KEquals -> "Equals" | KDoesNotEqual -> "DoesNotEqual" | KIsGE -> "IsGE" | KIsLE -> "IsLE" | KShiftLeft -> "ShiftLeft"
+  | KShiftRight -> "ShiftRight" | KArrow -> "Arrow" | KPipeForType -> "PipeForType" | KDots -> "Dots"
+  | KFn -> "Fn" | KVar -> "Var" | KConst -> "Const" | KIf -> "If" | KGoto -> "Goto" | KLoop -> "Loop" | KReturn -> "Return"
+  | KElse -> "Else" | KCast -> "Cast" | KAs -> "As" | KImport -> "Import" | KPub -> "Pub" | KExtern -> "Extern" | KStruct -> "Struct"
+  | KWord8 -> "Word8" | KWord16 -> "Word16" | KWord32 -> "Word32" | KWord64 -> "Word64" | KWord128 -> "Word128"
+  | KType -> "ValueTypeKeyword" | KIdentifier -> "Identifier" | KBuiltin -> "Builtin" | KNakedDecimal -> "NakedDecimal"
+  | KBitInteger -> "BitInteger" | KSuffixedInteger -> "SuffixedInteger" | KCharLiteral -> "CharLiteral" | KBool -> "BoolLiteral"
+  | KStringLiteral -> "StringLiteral" | KError -> "Error")
+let prim_debug (p : IR.prim) : string = IR.(match p with
+  | Int8 -> "Int8" | Int16 -> "Int16" | Int32 -> "Int32" | Int64 -> "Int64" | Int128 -> "Int128"
+  | Uint8 -> "Uint8" | Uint16 -> "Uint16" | Uint32 -> "Uint32" | Uint64 -> "Uint64" | Uint128 -> "Uint128"
+  | Usize -> "Usize" | Char8 -> "Char8" | Bool -> "Bool")
+let show_tok (with_bytes : bool) (t : Tok.tok) : string =
+  let ty = match t.Tok.vtype with None -> "-" | Some Tok.TyVoid -> "Void" | Some (Tok.TyPrim p) -> prim_debug p in
+  let base = Printf.sprintf "%s %s %s %s %s %s %s" (tkind_name t.Tok.kind) (string_of_z t.Tok.value) ty
+      (string_of_n t.Tok.tstart) (string_of_n t.Tok.tend) (string_of_n t.Tok.line) (string_of_n t.Tok.lstart) in
+  if with_bytes && t.Tok.kind = Tok.KStringLiteral then
+    base ^ " #" ^ String.concat "" (List.map (fun b -> Printf.sprintf "%02x" (int_of_n b)) t.Tok.bytes) ^ ";"
+  else base ^ ";"
+let utf8_decode (bs : int list) : int list =
+  let rec go acc = function
+    | [] -> List.rev acc
+    | b :: r when b < 0x80 -> go (b :: acc) r
+    | b :: b1 :: r when b land 0xE0 = 0xC0 -> go ((((b land 0x1F) lsl 6) lor (b1 land 0x3F)) :: acc) r
+    | b :: b1 :: b2 :: r when b land 0xF0 = 0xE0 -> go ((((b land 0x0F) lsl 12) lor ((b1 land 0x3F) lsl 6) lor (b2 land 0x3F)) :: acc) r
+    | b :: b1 :: b2 :: b3 :: r when b land 0xF8 = 0xF0 ->
+        go ((((b land 0x07) lsl 18) lor ((b1 land 0x3F) lsl 12) lor ((b2 land 0x3F) lsl 6) lor (b3 land 0x3F)) :: acc) r
+    | _ -> failwith "invalid utf8" in
+  go [] bs
+let bytes_of_hex (h : string) : int list = List.init (String.length h / 2) (fun i -> int_of_string ("0x" ^ String.sub h (2 * i) 2))
+let run_lex_alpha (x : sexp) : string =
+  let h = match x with A h -> h | L [] -> "" | _ -> failwith "lex input" in
+  let cps = List.map n_of_int (utf8_decode (bytes_of_hex h)) in
+  String.concat "" (List.map (show_tok true) (LexAlpha.lex_alpha_fixed cps))
+let run_lex_delta (x : sexp) : string =
+  let h = match x with A h -> h | L [] -> "" | _ -> failwith "lex input" in
+  let bs = List.map n_of_int (bytes_of_hex h) in
+  String.concat "" (List.map (show_tok false) (LexDelta.lex_delta bs)) ^ "|" ^ string_of_n (LexDelta.num_end_tokens bs)
+
 let dispatch (stream : string) (x : sexp) : string =
   match stream with
   | "labels" -> run_labels x
@@ -442,6 +488,8 @@ let dispatch (stream : string) (x : sexp) : string =
   | "layout" -> run_layout x
   | "literal" -> run_literal x
   | "linkage" -> run_linkage x
+  | "lex-alpha" -> run_lex_alpha x
+  | "lex-delta" -> run_lex_delta x
   | "tables" -> run_tables (match x with A n -> int_of_string n | _ -> 64)
   | "syntax" -> run_syntax true x
   | "syntax-pinned" -> run_syntax false x
